@@ -117,6 +117,13 @@ func (rp *replayer) buildWith(set string, ov *overlayInfo, race bool) string {
 					fmt.Println("REPLAY-VOID assumption failed")
 					return
 				}
+				// what was observed before the panic still counts (an assertion may have failed already)
+				for _, o := range rt.Observed {
+					fmt.Printf("REPLAY-OBS %s\n", o)
+				}
+				for _, f := range rt.Failures {
+					fmt.Printf("REPLAY-FAIL %s\n", f)
+				}
 				fmt.Printf("REPLAY-PANIC %v\n", e)
 				panic(e)
 			}
@@ -250,7 +257,9 @@ func (rp *replayer) replay(vr *violationReport, ov *overlayInfo) string {
 		}
 		switch v.Kind {
 		case "assert":
-			if strings.Contains(out, "REPLAY-FAIL "+v.Label) {
+			// (the assertion outcome is logged when it happens: a later panic of the harness, which stops the
+			// native run before its summary, does not hide it)
+			if strings.Contains(out, "REPLAY-FAIL "+v.Label) || strings.Contains(out, "REPLAY-OBS assert:"+v.Label+"=false") {
 				os.WriteFile(strings.TrimSuffix(vr.Replay, ".json")+".native.txt", []byte(trunc(out, 20000)), 0o644)
 				return "reproduced"
 			}
